@@ -56,10 +56,6 @@ package language
 //@   requires len(args) == 2 && forall j int :: 0 <= j && j < len(args) ==> args[j] != nil
 //@ func objectSize
 //@   requires len(args) == 1 && forall j int :: 0 <= j && j < len(args) ==> args[j] != nil
-//@ func ifNotExists
-//@   requires len(args) == 2 && forall j int :: 0 <= j && j < len(args) ==> args[j] != nil
-//@ func listAppend
-//@   requires len(args) == 2 && forall j int :: 0 <= j && j < len(args) ==> args[j] != nil
 
 // ---- C09: lexer totality ---------------------------------------------------------------------------------
 // LInv: readPosition is one past position, and ch is the byte at position (0 at or beyond the end of the input)
@@ -213,3 +209,77 @@ package language
 //@   partial
 //@   ensures[C06] (Undef(val) || Undef(min) || Undef(max)) && !typeis(result, "*Error") ==> IsF(result)
 
+
+// ---- C07: update expressions ----------------------------------------------------------------------------------
+// the environment is a map from attribute names (aliases resolved) to objects; each operation changes exactly one entry
+//@ pred Real(e *Environment, name string) := (name in e.Aliases ? e.Aliases[name] : name)
+
+//@ func (*Environment).Set
+//@   requires e != nil && e.store != nil
+//@   modifies e.store[*]
+//@   ensures[C07] result == val && dom(e.store) == with(old(dom(e.store)), old(Real(e, name))) && e.store[old(Real(e, name))] == val
+//@   ensures[C07] forall k string :: {e.store[k]} k != old(Real(e, name)) ==> e.store[k] == old(e.store[k])
+
+//@ func (*Environment).Remove
+//@   requires e != nil && e.store != nil
+//@   modifies e.store[*]
+//@   ensures[C07] dom(e.store) == without(old(dom(e.store)), old(Real(e, name)))
+//@   ensures[C07] forall k string :: {e.store[k]} k != old(Real(e, name)) ==> e.store[k] == old(e.store[k])
+
+//@ func (*Environment).Has
+//@   requires e != nil
+//@   ensures[C07] result == (name in e.store)
+
+// if_not_exists(path, value): the value when the path is missing (or of type NULL), else what the path holds
+//@ func ifNotExists
+//@   requires len(args) == 2 && forall j int :: 0 <= j && j < len(args) ==> args[j] != nil
+//@   ensures[C07] (args[0] == nil || typeis(args[0], "*Null")) ==> result == args[1]
+//@   ensures[C07] !(args[0] == nil || typeis(args[0], "*Null")) ==> result == args[0]
+
+// list_append(l1, l2): a new list object holding l1's elements followed by l2's; neither operand is changed
+//@ func listAppend
+//@   requires len(args) == 2 && forall j int :: 0 <= j && j < len(args) ==> args[j] != nil
+//@   modifies arrays("language.Object")
+//@   ensures[C07] old(typeis(args[0], "*List") && typeis(args[1], "*List")) ==> typeis(result, "*List") && fresh(result.(*List)) &&
+//@                len(result.(*List).Value) == old(len(args[0].(*List).Value)) + old(len(args[1].(*List).Value))
+//@   ensures[C07] old(typeis(args[0], "*List") && typeis(args[1], "*List")) ==> forall j int :: {result.(*List).Value[j]} 0 <= j && j < old(len(args[0].(*List).Value)) ==> result.(*List).Value[j] == old(args[0].(*List).Value[j])
+//@   ensures[C07] old(typeis(args[0], "*List") && typeis(args[1], "*List")) ==> forall j int :: {old(args[1].(*List).Value[j])} 0 <= j && j < old(len(args[1].(*List).Value)) ==> result.(*List).Value[old(len(args[0].(*List).Value)) + j] == old(args[1].(*List).Value[j])
+//@   ensures[C07] old(typeis(args[0], "*List")) ==> len(old(args[0]).(*List).Value) == old(len(args[0].(*List).Value)) && forall j int :: {old(args[0]).(*List).Value[j]} 0 <= j && j < old(len(args[0].(*List).Value)) ==> old(args[0]).(*List).Value[j] == old(args[0].(*List).Value[j])
+//@   ensures[C07] !old(typeis(args[0], "*List") && typeis(args[1], "*List")) ==> typeis(result, "*Error")
+
+
+// ---- C14 / C07: evaluator object -> internal item -------------------------------------------------------------
+// Converting an object writes nothing that existed before (no modifies clause: frame obligations on every heap).
+//@ func (*Number).ToDynamoDB
+//@ func (*Boolean).ToDynamoDB
+//@ func (*Binary).ToDynamoDB
+//@ func (*Null).ToDynamoDB
+//@ func (*Error).ToDynamoDB
+//@ func (*String).ToDynamoDB
+//@ func (*Map).ToDynamoDB
+//@ func (*List).ToDynamoDB
+//@   loop 1:
+//@     invariant fresh(arr(attr.L)) && arr(attr.L) != 0
+//@ func (*StringSet).ToDynamoDB
+//@   loop 1:
+//@     invariant fresh(arr(attr.SS)) && arr(attr.SS) != 0
+//@ func (*BinarySet).ToDynamoDB
+//@ func (*NumberSet).ToDynamoDB
+//@   loop 1:
+//@     invariant fresh(arr(attr.NS)) && arr(attr.NS) != 0
+
+// Apply writes the environment back into the item: every value that is not excluded is stored, as a fresh attribute,
+// under its (alias-mapped) name; no other attribute of the item is touched and none is ever deleted by Apply itself
+// (removal is done by Language.Update afterwards)
+//@ pred ApplyName(aliases map[string]string, k string) := (k in aliases ? aliases[k] : k)
+//@ func (*Environment).Apply
+//@   requires e != nil && item != nil && allocated(item) && allocated(e.store)
+//@   modifies item[*]
+//@   ensures[C07] forall n string :: {n in item} old(n in item) ==> n in item
+//@   ensures[C07] forall k string :: {k in e.store} k in e.store && !(k in exclude) ==> ApplyName(aliases, k) in item && fresh(item[ApplyName(aliases, k)])
+//@   ensures[C07] forall n string :: {item[n]} !fresh(item[n]) ==> item[n] == old(item[n])
+//@   loop 1:
+//@     invariant forall n string :: {n in item} old(n in item) ==> n in item
+//@     invariant forall k string :: {k in e.store} k in visited && !(k in exclude) ==> ApplyName(aliases, k) in item && fresh(item[ApplyName(aliases, k)])
+//@     invariant forall n string :: {item[n]} !fresh(item[n]) ==> item[n] == old(item[n])
+//@     invariant dom(e.store) == old(dom(e.store))
